@@ -17,8 +17,19 @@ def repo_root():
 
 
 def _ensure_repo_on_path():
+    """Make `import src...` resolve to the repository under verification ($VERIF_REPO or /repo). The interpreter's
+    site-packages may carry an editable install of /repo, and a contract module may have imported `src` at load time:
+    a `src` package loaded from anywhere else is dropped, so that native replays / bounded checks never run the code of
+    a different tree than the one whose source the proofs read."""
     r = repo_root()
-    if r not in sys.path:
+    m = sys.modules.get("src")
+    f = getattr(m, "__file__", None) if m is not None else None
+    if f and os.path.realpath(os.path.dirname(f)) != os.path.realpath(os.path.join(r, "src")):
+        for k in [k for k in sys.modules if k == "src" or k.startswith("src.")]:
+            del sys.modules[k]
+    if not sys.path or sys.path[0] != r:
+        if r in sys.path:
+            sys.path.remove(r)
         sys.path.insert(0, r)
 
 
@@ -140,6 +151,19 @@ def replay(c: api.Contract, inputs: dict):
         args[sig[0]] = owner
     old = _types.SimpleNamespace(**{k: _safe_copy(v) for k, v in args.items()})
     out = {"target": c.target, "args": {k: _show(v) for k, v in args.items()}}
+    dom = c.native("native_domain")
+    if dom is not None:
+        # NATIVE-ONLY typing side condition: which concrete Python values the (total) abstract domains stand for, e.g.
+        # "class_node is an ast.ClassDef" -- the symbolic proof does not use it (it covers every abstract node)
+        try:
+            inside = bool(_call_spec(dom, dict(args, old=old)))
+        except Exception:  # noqa
+            inside = False
+        if not inside:
+            out["requires_holds"] = False
+            out["confirmed"] = False
+            out["reason"] = "input is outside the contract's native domain (abstract node with no concrete counterpart)"
+            return out
     req = c.native("requires")
     if req is not None:
         try:
